@@ -790,6 +790,19 @@ M('C04', 'python tensordot skips the transposition on the ordered contracted axe
   "        if axes_a != list(range(a.rank - len(axes_a), a.rank)):\n            a.itranspose(not_axes_a + axes_a)\n",
   None, expect='silent')
 
+M('C11', 'plus_identity: middle block without beta**(1/N) (round-3 seed a)', MPO,
+  "dW[i + 1, j + 1] = b * A_npc[i, j]", "dW[i + 1, j + 1] = A_npc[i, j]", 'WEIGHT-path')
+M('C11', 'plus_identity: end block exponent off by one', MPO,
+  "b ** (N - counter + 1) * B_npc[i, 0]", "b ** (N - counter) * B_npc[i, 0]", 'WEIGHT-path')
+M('C11', 'plus_identity: identity chains swapped', MPO,
+  "dW[-1, -1] = g * Id_npc", "dW[-1, -1] = d * Id_npc", 'WEIGHT-path')
+M('C11', 'plus_identity: beta on the last site of the finished chain', MPO,
+  "g = 1 if counter != 0 else beta", "g = 1 if counter != N - 1 else beta", 'WEIGHT-path')
+M('C11', 'plus_identity: factors commuted / condition flipped (equivalent)', MPO,
+  "dW[i + 1, j + 1] = b * A_npc[i, j]", "dW[i + 1, j + 1] = A_npc[i, j] * b", None, expect='silent')
+M('C11', 'plus_identity: chain condition flipped (equivalent)', MPO,
+  "g = 1 if counter != 0 else beta", "g = beta if counter == 0 else 1", None, expect='silent')
+
 # ---------------------------------------------------------------- C16 / C19
 M('C16', 'gram_schmidt keeps vectors below rcond', KRY,
   "        if n > rcond:\n            iscale_prefactor(vec, 1.0 / n)\n            res.append(vec)",
